@@ -57,9 +57,9 @@ def menu(name, L):
         c += [('expect', ('ab', 'TIMEOUT'), 2, 0), ('expect', ('aba', 'TIMEOUT'), -1, 0),
               ('list', ('abab', 'TIMEOUT'), 1, 5)]
     if name == 'c03x':
-        c += [('expect', ('aba',), 2, 5), ('expect', ('ab',), -1, 5), ('setsw', 2), ('setsw', None)]
+        c += [('expect', ('aba',), 2, 5), ('expect', ('ab',), -1, 5), ('setsw', 2), ('setsw', None), ('setbuf', 'b'), ('setbuf', 'cur+a')]
     if name == 'c03r':
-        c += [('exact', ('aba',), 2, 5), ('exact', ('ab',), -1, 5), ('setsw', 3), ('setsw', None)]
+        c += [('exact', ('aba',), 2, 5), ('exact', ('ab',), -1, 5), ('setsw', 3), ('setsw', None), ('setbuf', 'b'), ('setbuf', 'cur+a')]
     if name == 'c03nl':
         for p in (('a$',), ('^b',), ('a\n',), ('a.b',)):
             for sw in (-1, 1, 2, 3):
